@@ -44,6 +44,26 @@ def blocks(name, v):
     return q, t, s
 
 
+
+def rows_independent(ctx, case, what, T):
+    """an output batch must own its rows: updating one item in place must not change any other item
+    (outputs built with expand / stride-0 or aliasing an operand violate this silently)"""
+    t = T.tensor() if hasattr(T, "ltype") else T
+    if t.dim() < 2 or t.shape[0] < 2 or t.numel() == 0:
+        return True
+    before = t.clone()
+    try:
+        row = t[0]
+        row.add_(0.25)
+    except Exception as e:
+        ctx.fail(case, f"overlap: in-place update of one item of {what} raised {type(e).__name__}: {str(e)[:100]}")
+        return False
+    ok = torch.equal(t[1:], before[1:])
+    if not ok:
+        ctx.fail(case, f"overlap: updating item 0 of {what} in place changed other items (shared / stride-0 storage)")
+    return ok
+
+
 def tscale_mul(name, X, Y):
     _, tx, sx = blocks(name, X)
     _, ty, _ = blocks(name, Y)
@@ -106,118 +126,141 @@ def run_ops(ctx: Ctx, n_cases: int):
                 buf = torch.full(tuple(sa) + (U.GDIM[name] + 3,), 7.0, dtype=Xt.dtype)
                 buf[..., 1:1 + U.GDIM[name]] = X.tensor()
                 X = P.LieTensor(buf[..., 1:1 + U.GDIM[name]], ltype=U.ltype(name))
-        x_before = X.tensor().clone()
+        gradmode = rng.choice(["plain", "plain", "requires_grad", "no_grad", "inference"])
+        if gradmode == "requires_grad" and op not in ("identity",):
+            X = X.detach().clone().requires_grad_(True)     # tracked operands must give the same values
+        x_before = X.tensor().detach().clone()
+        case["gradmode"] = gradmode
+        ctx.count(f"ops.gradmode.{gradmode}")
         case["X"] = X64.tolist()
         ctx.count(f"ops.{op}.{name}")
         sig = ("ops", op, name, dtype, tuple(sorted(set(tags)))[:3], sa, sb)
+        import contextlib
+        gctx = torch.no_grad() if gradmode == "no_grad" else (torch.inference_mode() if gradmode == "inference" else contextlib.nullcontext())
         try:
-            if op in ("Mul", "Mul*"):
-                Yrows = [U.gen_group(rng, name, eps, wide=0.12)[0] for _ in range(nb)]
-                Yt, Y64 = U.to_dtype_exact(Yrows, dtype)
-                Y = P.LieTensor(Yt.reshape(sb + (U.GDIM[name],)), ltype=U.ltype(name))
-                Y64 = Y64.reshape(sb + (U.GDIM[name],))
-                case["Y"] = Y64.tolist()
-                Z = (X @ Y) if op == "Mul" else (X * Y)
-                if type(Z).__name__ != "LieTensor" or Z.ltype != X.ltype or tuple(Z.shape[:-1]) != so or Z.dtype != X.dtype:
-                    ctx.fail(case, f"type: {op} returned {type(Z).__name__} {tuple(Z.shape)} {Z.dtype}")
-                    continue
-                Xe = X64.expand(so + (U.GDIM[name],)).reshape(-1, U.GDIM[name])
-                Ye = Y64.expand(so + (U.GDIM[name],)).reshape(-1, U.GDIM[name])
-                Zf = Z.tensor().double().reshape(-1, U.GDIM[name])
-                for i in range(Xe.shape[0]):
-                    x, y = Xe[i].tolist(), Ye[i].tolist()
-                    lines.append(U.model_call(f"{name}.Mul", eps, x + y))
-                    metas.append(("group", case, name, dtype, Zf[i].tolist(), tscale_mul(name, x, y), True))
-            elif op == "Inv":
-                Z = X.Inv()
-                Zf = Z.tensor().double().reshape(-1, U.GDIM[name])
-                Xf = X64.reshape(-1, U.GDIM[name])
-                for i in range(Xf.shape[0]):
-                    x = Xf[i].tolist()
-                    _, t, s = blocks(name, x)
-                    tsc = 1e-300 + (U.max_abs(t) * 3 / (s if s else 1.0) if t is not None else 1.0)
-                    lines.append(U.model_call(f"{name}.Inv", eps, x))
-                    metas.append(("group", case, name, dtype, Zf[i].tolist(), tsc, True))
-            elif op in ("Act", "Act4", "Act4w0"):
-                d = 3 if op == "Act" else 4
-                prow = []
-                for _ in range(nb):
-                    p = U.vec(rng, U.gen_mag(rng, eps, 1e3))
-                    if d == 4:
-                        p = p + [0.0 if op == "Act4w0" else rng.choice([1.0, 1.0, rng.uniform(-3, 3)])]
-                    prow.append(p)
-                pt, p64 = U.to_dtype_exact(prow, dtype)
-                p = pt.reshape(sb + (d,))
-                p64 = p64.reshape(sb + (d,))
-                case["p"] = p64.tolist()
-                Z = X.Act(p)
-                if isinstance(Z, P.LieTensor) or tuple(Z.shape) != so + (d,):
-                    ctx.fail(case, f"type: Act returned {type(Z).__name__} {tuple(Z.shape)}")
-                    continue
-                Xe = X64.expand(so + (U.GDIM[name],)).reshape(-1, U.GDIM[name])
-                pe = p64.expand(so + (d,)).reshape(-1, d)
-                Zf = Z.double().reshape(-1, d)
-                for i in range(Xe.shape[0]):
-                    x, pp_ = Xe[i].tolist(), pe[i].tolist()
-                    _, t, s = blocks(name, x)
-                    sc = (s if s else 1.0) * U.max_abs(pp_[:3]) * 3 + (U.max_abs(t) * abs(pp_[3] if d == 4 else 1.0) if t is not None else 0.0)
-                    lines.append(U.model_call(f"{name}.Act" + ("4" if d == 4 else ""), eps, x + pp_))
-                    metas.append(("vec", case, name, dtype, Zf[i].tolist(), sc, None))
-            elif op == "matrix":
-                M = X.matrix()
-                n = U.MATN[name]
-                if tuple(M.shape) != sa + (n, n):
-                    ctx.fail(case, f"type: matrix() shape {tuple(M.shape)}")
-                    continue
-                Mf = M.double().reshape(-1, n * n)
-                Xf = X64.reshape(-1, U.GDIM[name])
-                for i in range(Xf.shape[0]):
-                    x = Xf[i].tolist()
-                    _, t, s = blocks(name, x)
-                    sc = max(1.0, (s if s else 1.0), U.max_abs(t) if t is not None else 0.0)
-                    lines.append(U.model_call(f"{name}.matrix", eps, x))
-                    metas.append(("vec", case, name, dtype, Mf[i].tolist(), sc, None))
-            elif op == "accessors":
-                ok = True
-                r = X.rotation()
-                ok &= r.ltype == P.SO3_type and torch.equal(r.tensor(), X.tensor()[..., U.QSL[name]])
-                if U.TSL[name] is not None:
-                    ok &= torch.equal(X.translation(), X.tensor()[..., U.TSL[name]])
-                if U.SIDX[name] is not None:
-                    ok &= torch.equal(X.scale(), X.tensor()[..., U.SIDX[name]:U.SIDX[name] + 1])
-                # blocks of matrix() are exactly what the accessors return
-                M = X.matrix().double()
-                R = X.rotation().matrix().double()
-                s = X.scale().double().unsqueeze(-1) if U.SIDX[name] is not None else 1.0
-                blk = M[..., :3, :3]
-                if not torch.allclose(blk, s * R, rtol=tol(dtype), atol=tol(dtype) * (float(torch.as_tensor(s).abs().max()) if X.numel() else 1.0)):
-                    ok = False
-                if U.TSL[name] is not None and X.numel() and not torch.equal(M[..., :3, 3], X.translation().double()):
-                    ok = False
-                if not ok:
-                    ctx.fail(case, f"accessors: rotation/translation/scale do not match storage / matrix blocks ({name})")
-            elif op == "identity":
-                ctor = {"SO3": P.identity_SO3, "SE3": P.identity_SE3, "RxSO3": P.identity_RxSO3, "Sim3": P.identity_Sim3}[name]
-                I = ctor(*sa, dtype=U.dt(dtype))
-                I2 = P.identity_like(X)
-                try:
-                    X3 = X.clone().identity_()
-                except NotImplementedError:   # only SO3 implements the in-place constructor; a loud refusal is fine
-                    X3 = I
-                    ctx.count("identity_.not-implemented")
-                want = {"SO3": [0, 0, 0, 1.], "SE3": [0, 0, 0, 0, 0, 0, 1.], "RxSO3": [0, 0, 0, 1., 1.], "Sim3": [0, 0, 0, 0, 0, 0, 1., 1.]}[name]
-                wt = torch.tensor(want, dtype=U.dt(dtype)).expand(sa + (len(want),))
-                for nm, v in (("identity_" + name, I), ("identity_like", I2), ("identity_", X3)):
-                    if v.ltype != X.ltype or not torch.equal(v.tensor(), wt):
-                        ctx.fail(case, f"identity: {nm} is not the identity element of {name}")
-                # neutral on both sides, bit-exact up to tolerance
-                for Z in (I @ X, X @ I):
-                    if X.numel() and float((Z.tensor() - X.tensor()).abs().max()) > tol(dtype) * max(1.0, float(X.tensor().abs().max())):
-                        ctx.fail(case, f"identity: identity is not neutral for {name}")
+          with gctx:
+              if op in ("Mul", "Mul*"):
+                  Yrows = [U.gen_group(rng, name, eps, wide=0.12)[0] for _ in range(nb)]
+                  Yt, Y64 = U.to_dtype_exact(Yrows, dtype)
+                  Y = P.LieTensor(Yt.reshape(sb + (U.GDIM[name],)), ltype=U.ltype(name))
+                  Y64 = Y64.reshape(sb + (U.GDIM[name],))
+                  case["Y"] = Y64.tolist()
+                  Z = (X @ Y) if op == "Mul" else (X * Y)
+                  if type(Z).__name__ != "LieTensor" or Z.ltype != X.ltype or tuple(Z.shape[:-1]) != so or Z.dtype != X.dtype:
+                      ctx.fail(case, f"type: {op} returned {type(Z).__name__} {tuple(Z.shape)} {Z.dtype}")
+                      continue
+                  Xe = X64.expand(so + (U.GDIM[name],)).reshape(-1, U.GDIM[name])
+                  Ye = Y64.expand(so + (U.GDIM[name],)).reshape(-1, U.GDIM[name])
+                  Zf = Z.tensor().detach().double().reshape(-1, U.GDIM[name])
+                  if len(so) == 1:
+                      rows_independent(ctx, case, f"the result of {op}", Z.clone() if False else (X @ Y if op == "Mul" else X * Y))
+                  for i in range(Xe.shape[0]):
+                      x, y = Xe[i].tolist(), Ye[i].tolist()
+                      lines.append(U.model_call(f"{name}.Mul", eps, x + y))
+                      metas.append(("group", case, name, dtype, Zf[i].tolist(), tscale_mul(name, x, y), True))
+              elif op == "Inv":
+                  Z = X.Inv()
+                  Zf = Z.tensor().detach().double().reshape(-1, U.GDIM[name])
+                  Xf = X64.reshape(-1, U.GDIM[name])
+                  for i in range(Xf.shape[0]):
+                      x = Xf[i].tolist()
+                      _, t, s = blocks(name, x)
+                      tsc = 1e-300 + (U.max_abs(t) * 3 / (s if s else 1.0) if t is not None else 1.0)
+                      lines.append(U.model_call(f"{name}.Inv", eps, x))
+                      metas.append(("group", case, name, dtype, Zf[i].tolist(), tsc, True))
+              elif op in ("Act", "Act4", "Act4w0"):
+                  d = 3 if op == "Act" else 4
+                  prow = []
+                  for _ in range(nb):
+                      p = U.vec(rng, U.gen_mag(rng, eps, 1e3))
+                      if d == 4:
+                          p = p + [0.0 if op == "Act4w0" else rng.choice([1.0, 1.0, rng.uniform(-3, 3)])]
+                      prow.append(p)
+                  pt, p64 = U.to_dtype_exact(prow, dtype)
+                  p = pt.reshape(sb + (d,))
+                  p64 = p64.reshape(sb + (d,))
+                  case["p"] = p64.tolist()
+                  Z = X.Act(p)
+                  if isinstance(Z, P.LieTensor) or tuple(Z.shape) != so + (d,):
+                      ctx.fail(case, f"type: Act returned {type(Z).__name__} {tuple(Z.shape)}")
+                      continue
+                  Xe = X64.expand(so + (U.GDIM[name],)).reshape(-1, U.GDIM[name])
+                  pe = p64.expand(so + (d,)).reshape(-1, d)
+                  Zf = Z.detach().double().reshape(-1, d)
+                  for i in range(Xe.shape[0]):
+                      x, pp_ = Xe[i].tolist(), pe[i].tolist()
+                      _, t, s = blocks(name, x)
+                      sc = (s if s else 1.0) * U.max_abs(pp_[:3]) * 3 + (U.max_abs(t) * abs(pp_[3] if d == 4 else 1.0) if t is not None else 0.0)
+                      lines.append(U.model_call(f"{name}.Act" + ("4" if d == 4 else ""), eps, x + pp_))
+                      metas.append(("vec", case, name, dtype, Zf[i].tolist(), sc, None))
+              elif op == "matrix":
+                  M = X.matrix()
+                  n = U.MATN[name]
+                  if tuple(M.shape) != sa + (n, n):
+                      ctx.fail(case, f"type: matrix() shape {tuple(M.shape)}")
+                      continue
+                  Mf = M.detach().double().reshape(-1, n * n)
+                  Xf = X64.reshape(-1, U.GDIM[name])
+                  for i in range(Xf.shape[0]):
+                      x = Xf[i].tolist()
+                      _, t, s = blocks(name, x)
+                      sc = max(1.0, (s if s else 1.0), U.max_abs(t) if t is not None else 0.0)
+                      lines.append(U.model_call(f"{name}.matrix", eps, x))
+                      metas.append(("vec", case, name, dtype, Mf[i].tolist(), sc, None))
+              elif op == "accessors":
+                  ok = True
+                  r = X.rotation()
+                  ok &= r.ltype == P.SO3_type and torch.equal(r.tensor(), X.tensor()[..., U.QSL[name]])
+                  if U.TSL[name] is not None:
+                      ok &= torch.equal(X.translation(), X.tensor()[..., U.TSL[name]])
+                  if U.SIDX[name] is not None:
+                      ok &= torch.equal(X.scale(), X.tensor()[..., U.SIDX[name]:U.SIDX[name] + 1])
+                  # blocks of matrix() are exactly what the accessors return
+                  M = X.matrix().double()
+                  R = X.rotation().matrix().double()
+                  s = X.scale().double().unsqueeze(-1) if U.SIDX[name] is not None else 1.0
+                  blk = M[..., :3, :3]
+                  if not torch.allclose(blk, s * R, rtol=tol(dtype), atol=tol(dtype) * (float(torch.as_tensor(s).abs().max()) if X.numel() else 1.0)):
+                      ok = False
+                  if U.TSL[name] is not None and X.numel() and not torch.equal(M[..., :3, 3], X.translation().double()):
+                      ok = False
+                  if not ok:
+                      ctx.fail(case, f"accessors: rotation/translation/scale do not match storage / matrix blocks ({name})")
+              elif op == "identity":
+                  ctor = {"SO3": P.identity_SO3, "SE3": P.identity_SE3, "RxSO3": P.identity_RxSO3, "Sim3": P.identity_Sim3}[name]
+                  I = ctor(*sa, dtype=U.dt(dtype))
+                  I2 = P.identity_like(X)
+                  try:
+                      X3 = X.clone().identity_()
+                  except NotImplementedError:   # only SO3 implements the in-place constructor; a loud refusal is fine
+                      X3 = I
+                      ctx.count("identity_.not-implemented")
+                  want = {"SO3": [0, 0, 0, 1.], "SE3": [0, 0, 0, 0, 0, 0, 1.], "RxSO3": [0, 0, 0, 1., 1.], "Sim3": [0, 0, 0, 0, 0, 0, 1., 1.]}[name]
+                  wt = torch.tensor(want, dtype=U.dt(dtype)).expand(sa + (len(want),))
+                  for nm, v in (("identity_" + name, I), ("identity_like", I2), ("identity_", X3)):
+                      if v.ltype != X.ltype or not torch.equal(v.tensor(), wt):
+                          ctx.fail(case, f"identity: {nm} is not the identity element of {name}")
+                  # constructor outputs are ordinary batches: whole-batch and row-wise in-place updates must work
+                  for nm, mk in (("identity_" + name, lambda: ctor(*sa, dtype=U.dt(dtype))), ("identity_like", lambda: P.identity_like(X))):
+                      J = mk()
+                      if J.numel():
+                          a0 = torch.full(tuple(sa) + (U.ADIM[name],), 0.125, dtype=J.dtype)
+                          try:
+                              J.add_(a0)
+                              ref = P.LieTensor(a0, ltype=getattr(P, U.ALG[name] + "_type")).Exp() @ mk().clone()
+                              if float((J.tensor() - ref.tensor()).abs().max()) > 64 * torch.finfo(J.dtype).eps * 4:
+                                  ctx.fail(case, f"identity: {nm}(...).add_(a) != Exp(a) @ identity for {name}")
+                          except Exception as e:
+                              ctx.fail(case, f"overlap: {nm}(...).add_(a) raised {type(e).__name__}: {str(e)[:100]}")
+                      rows_independent(ctx, case, nm, mk().reshape(-1, U.GDIM[name]) if len(sa) != 1 else mk())
+                  # neutral on both sides, bit-exact up to tolerance
+                  for Z in (I @ X, X @ I):
+                      if X.numel() and float((Z.tensor() - X.tensor()).abs().max()) > tol(dtype) * max(1.0, float(X.tensor().abs().max())):
+                          ctx.fail(case, f"identity: identity is not neutral for {name}")
         except Exception as e:
             ctx.fail(case, f"raises: {op} on {name} raised {type(e).__name__}: {str(e)[:150]}")
             continue
-        if not torch.equal(X.tensor(), x_before):
+        if not torch.equal(X.tensor().detach(), x_before):
             ctx.fail(case, f"mutation: {op} on {name} changed its LieTensor argument (layout {layout})")
         ctx.count(f"ops.layout.{layout}")
         ctx.note_case(sig, True)
